@@ -27,6 +27,7 @@ import (
 
 	"github.com/NethermindEth/juno/jsonrpc"
 	"github.com/NethermindEth/juno/utils/log"
+	"github.com/coder/websocket"
 	"verif/harness/lib"
 )
 
@@ -607,5 +608,116 @@ func (rn *runner) eventsHTTP(w *World, rec *evRec, inputs [][]byte, r *lib.RNG) 
 		if !sameOutputs(direct.Out, plain, isBatchShaped(in)) {
 			res.Mismatch(lib.Mismatch{Sig: "transport-http-differs-from-HandleReader", Input: describe(in), Model: string(direct.Out), Impl: string(plain)})
 		}
+	}
+}
+
+// wsParamsTie: Websocket.WithConnParams (ReadLimit straddled: limit-1, limit, limit+1 bytes), WithListener (one
+// OnNewRequest("any") per message), the shutdown channel (the connection is closed by the server, status 1011),
+// and Error.CloneWithData. A frame within the read limit must be answered like any other request.
+func (rn *runner) wsParamsTie() {
+	res := rn.res
+	w, err := NewWorld(fixedWorld(false, 2))
+	if err != nil {
+		res.Fatalf("ws params: %v", err)
+		return
+	}
+	const limit = 3000
+	var mu sync.Mutex
+	anyCalls := 0
+	shutdown := make(chan struct{})
+	wsh := jsonrpc.NewWebsocket(w.Server, shutdown, log.NewNopZapLogger()).
+		WithConnParams(&jsonrpc.WebsocketConnParams{ReadLimit: limit, WriteDuration: 20 * time.Second}).
+		WithListener(&jsonrpc.SelectiveListener{OnNewRequestCb: func(m string) {
+			mu.Lock()
+			if m == "any" {
+				anyCalls++
+			} else {
+				anyCalls += 1000
+			}
+			mu.Unlock()
+		}})
+	srv := httptest.NewServer(wsh)
+	defer srv.Close()
+	mk := func(n int) []byte { // a request of exactly n bytes
+		base := `{"jsonrpc":"2.0","method":"hdr","params":[""],"id":"L"}`
+		return []byte(strings.Replace(base, `""`, `"`+strings.Repeat("a", n-len(base))+`"`, 1))
+	}
+	for _, n := range []int{limit - 1, limit, limit + 1, 2 * limit} {
+		c := &wsClient{url: srv.URL, timeout: 20 * time.Second}
+		if err := c.dial(); err != nil {
+			res.Fatalf("ws params: dial: %v", err)
+			return
+		}
+		in := mk(n)
+		mu.Lock()
+		anyCalls = 0
+		mu.Unlock()
+		w.reset()
+		msgs, hung, xerr := c.exchange([][]byte{in})
+		c.conn.CloseNow()
+		calls, _ := w.taken()
+		calls = dropSentinelCall(calls)
+		res.Case(fmt.Sprintf("ws-params:%d", n), true)
+		res.Compared(1)
+		replay := map[string]any{"via": "ws", "read_limit": limit, "frame_bytes": n, "input_text": string(in)}
+		if n <= limit {
+			res.Hit("ws-params:frame-within-limit")
+			direct := w.handle(in)
+			switch {
+			case hung:
+				res.Violate(lib.Violation{Sig: "server-hangs", What: fmt.Sprintf("[ws, ReadLimit %d] a frame of %d bytes is not answered", limit, n), Replay: replay})
+			case xerr != nil || len(msgs) != 1 || !sameOutputs(direct.Out, msgs[0], false):
+				res.Violate(lib.Violation{Sig: "websocket-frame-within-read-limit-not-answered",
+					What:   fmt.Sprintf("[ws, WithConnParams(ReadLimit %d)] a request frame of %d bytes must be answered like over HandleReader (%s); got %d message(s) %s, error %v", limit, n, short(direct.Out), len(msgs), short(bytes.Join(msgs, nil)), xerr),
+					Replay: replay})
+			}
+			mu.Lock()
+			got := anyCalls
+			mu.Unlock()
+			if xerr == nil && got != 2 { // the request and the sentinel
+				res.Mismatch(lib.Mismatch{Sig: "ws params: calls of the WebSocket transport's OnNewRequest differ", Input: replay, Model: "2 (request, sentinel)", Impl: got})
+			}
+		} else {
+			res.Hit("ws-params:frame-over-limit")
+			status := websocket.CloseStatus(xerr)
+			// the library reads one byte beyond the limit before it refuses: a frame of limit+1 bytes whose JSON value
+			// is complete is still answered, then the connection is closed while the rest of the frame is discarded
+			if n == limit+1 && status == websocket.StatusMessageTooBig {
+				continue
+			}
+			if xerr == nil || len(msgs) != 0 || len(calls) != 0 || status != websocket.StatusMessageTooBig {
+				res.Mismatch(lib.Mismatch{Sig: "ws params: a frame over the read limit is not refused by closing the connection (1009)", Input: replay,
+					Model: "no response, no handler call, close status 1009", Impl: map[string]any{"messages": len(msgs), "calls": callsText(calls), "err": fmt.Sprint(xerr), "status": int(status)}})
+			}
+		}
+	}
+	// shutdown: the server ends every connection
+	c := &wsClient{url: srv.URL, timeout: 20 * time.Second}
+	if err := c.dial(); err != nil {
+		res.Fatalf("ws params: dial: %v", err)
+		return
+	}
+	if msgs, _, err := c.exchange([][]byte{[]byte(`{"jsonrpc":"2.0","method":"noargs","id":1}`)}); err != nil || len(msgs) != 1 {
+		res.Fatalf("ws params: the connection does not work before shutdown: %v", err)
+		return
+	}
+	close(shutdown)
+	ctx, cancel := context.WithTimeout(context.Background(), 20*time.Second)
+	_, _, rerr := c.conn.Read(ctx)
+	defer cancel()
+	c.conn.CloseNow()
+	res.Hit("ws-params:shutdown")
+	res.Compared(1)
+	// (the cancelled context makes the library drop the TCP connection; the 1011 close frame of ServeHTTP's last
+	// lines can no longer be sent: the client sees the connection end, with or without a close frame)
+	if rerr == nil || ctx.Err() != nil {
+		res.Mismatch(lib.Mismatch{Sig: "ws params: closing the shutdown channel does not end the connection", Model: "connection ended by the server", Impl: fmt.Sprint(rerr)})
+	}
+	// Error.CloneWithData: a copy with the data, the original untouched
+	orig := jsonrpc.Err(jsonrpc.InvalidParams, "old")
+	cl := orig.CloneWithData(42)
+	res.Compared(1)
+	if cl == orig || cl.Data != 42 || orig.Data != "old" || cl.Code != orig.Code || cl.Message != orig.Message {
+		res.Mismatch(lib.Mismatch{Sig: "Error.CloneWithData does not copy", Model: "copy with data 42, original keeps \"old\"", Impl: fmt.Sprintf("%+v / %+v", cl, orig)})
 	}
 }
